@@ -49,6 +49,7 @@ def run(ctx):
     r5_lookahead(ctx, F)
     r6_count_mode_write_only(ctx, F)
     r7_sibling_counters(ctx, F)
+    r8_same_feeding(ctx, F)
     ctx.not_decided('equality of the i-th gradual value with the one-shot value for passed_objects(i); number of values; '
                     'final value equals full calculation (arithmetic over runtime values)')
 
@@ -376,3 +377,68 @@ def r7_sibling_counters(ctx, F):
         ur, ug = updates(REG), updates(GRAD)
         ctx.require(bool(ur) and ur == ug, 'C02-R7', 'update:' + name, '`%s` is updated alike in both arms: %s' % (name, sorted(ur)), gloc,
                     bad='`%s` is updated by %s in the regular arm but by %s in the gradual arm' % (name, sorted(ur), sorted(ug)))
+
+
+# ---- R8: the one-shot calculation and the gradual `next()` feed each skill under the same conditions (seed C03-7)
+def feeds_by_type(F, fn):
+    """{skill process callee: sorted list of frozenset(private guard facts)} of fn with container forwarders inlined; private = not shared by every feed of fn"""
+    import arms
+    import inline
+    from props.C15 import _forwards_process
+    g = inline.inlined(F, fn, depth=2, force=_forwards_process) or fn
+    sites = []
+    for bi, t in g.calls():
+        if t['func'].get('name') != 'process' or not t['args']:
+            continue
+        cp = t['func'].get('path') or ''
+        cal = F.fn(cp)
+        if (cal is not None and _forwards_process(cal)) or ('::skills::' not in cp and 'StrainSkill' not in cp):
+            continue
+        facts = set()
+        import re as _re
+        # the container the fed skill lives in (`self.skills`, a local `skills`, `OsuSkills::new(..)`): conditions on it are compared modulo how each path names it
+        P = prov.prov_of(g)
+        rv_ = prov.strip(P.call_args(bi)[0], names=set())
+        while rv_[0] in ('ref', 'mut', 'deref') and len(rv_) > 1 and isinstance(rv_[1], tuple):
+            rv_ = prov.strip(rv_[1], names=set())
+        container = prov.show(rv_[1], maxdepth=12) if rv_[0] == 'field' else None
+        for c, lab in arms.bool_facts(g, bi):
+            txt = prov.show(prov.strip(c, names={'likely', 'unlikely'}), maxdepth=12)
+            if container and container in txt:
+                txt = txt.replace(container, '$skills')
+            facts.add('%s = %s' % (_re.sub(r'param#\d+|\(\*?_\d+\)', '_', txt), lab))
+        sites.append((cp, facts))
+    if not sites:
+        return None
+    common = set.intersection(*[f_ for _, f_ in sites])
+    out = {}
+    for cp, f_ in sites:
+        out.setdefault(cp, []).append(tuple(sorted(f_ - common)))
+    return {k: sorted(v) for k, v in out.items()}
+
+
+def r8_same_feeding(ctx, F, rule='C02-R8'):
+    """The i-th gradual value equals the one-shot value for the first i objects only if both feed the same skills with the same objects.  Which skills are fed, and under
+    which conditions private to a skill (conditions shared by all feeds of a function — the loop bound, the first-object case — are factored out), must agree between
+    `DifficultyValues::calculate` and the gradual `next()`, container `process` forwarders inlined.  (next vs the bulk step of nth is C15-R8.)"""
+    from common import MODES, CAP
+    n = 0
+    for mode in MODES:
+        one = F.fn('%s::difficulty::DifficultyValues::calculate' % mode)
+        nxt = F.method('%s::difficulty::gradual::%sGradualDifficulty' % (mode, CAP[mode]), 'next', trait='std::iter::Iterator')
+        if one is None or nxt is None:
+            ctx.violation(rule, 'anchor-missing:' + mode, 'DifficultyValues::calculate / gradual next() of %s not found' % mode)
+            continue
+        ctx.saw(one)
+        ctx.saw(nxt)
+        a, b = feeds_by_type(F, one), feeds_by_type(F, nxt)
+        if a is None or b is None:
+            ctx.violation(rule, '%s:feeds-shape' % mode, '%s feeds no skill directly or through a container forwarder' % (one.path if a is None else nxt.path), (one if a is None else nxt).where())
+            continue
+        n += len(a)
+        diff = sorted(k for k in set(a) | set(b) if a.get(k) != b.get(k))
+        short = lambda k: k.split(' for ')[-1].split('>::')[0].split('::')[-1] if ' for ' in k else k.split('::')[-2]     # noqa: E731
+        ctx.require(not diff, rule, '%s:same-feeding' % mode, 'one-shot calculate and gradual next() of %s feed the same %d skill(s) under the same conditions' % (mode, len(a)), nxt.where(),
+                    bad='%s: the skill(s) %s are fed under different conditions by the one-shot calculation (%s) and by the gradual next() (%s): the gradual values stop being '
+                        'the values of the prefix' % (mode, ', '.join(short(k) for k in diff), '; '.join(str(a.get(k)) for k in diff)[:200], '; '.join(str(b.get(k)) for k in diff)[:200]))
+    ctx.floor(rule, n, 8, 'skill types fed by the one-shot calculations (4 + 4 + 1 + 1 today)')
